@@ -9,6 +9,7 @@ from ...frames.orient import G50, EME2000, GCRF, MOD, TEME, TOD, CIRF
 
 from .cov import load_cov, dump_cov
 from .commons import (
+    as_list,
     parse_date,
     dump_kvn_meta_odm,
     dump_kvn_header,
@@ -222,7 +223,7 @@ def _loads_xml(string):
 
     ud_dict = data["body"]["segment"]["data"].get("userDefinedParameters", {})
 
-    for field in ud_dict.get("USER_DEFINED", []):
+    for field in as_list(ud_dict.get("USER_DEFINED")):
         ud = orb._data.setdefault("ccsds_user_defined", {})
         ud[field.attrib["parameter"]] = field.text
 
